@@ -51,8 +51,12 @@ class SourceDataWrapper(ABC):
         self._to_idx = to_idx if to_idx is not None else total_n_rows
         self._n_rows = self._to_idx - self._from_idx  # number of rows to be loaded
 
+        if self._from_idx < 0:
+            raise ValueError(f"Starting index cannot be negative; got {self._from_idx}")
         if self._from_idx >= total_n_rows:
             raise ValueError(f"Starting index {self._from_idx} too large for total n. rows {total_n_rows}")
+        if self._to_idx > total_n_rows:
+            raise ValueError(f"End index {self._to_idx} too large for total n. rows {total_n_rows}")
         if self._n_rows < 1:
             raise ValueError(f"Starting index {self._from_idx} and end index {self._to_idx} do not yield a positive "
                              f"number of rows to be loaded")
